@@ -201,6 +201,7 @@ var faults = []fault{
 		wrap: func(in *server.Server) spb.GRIBIServer {
 			p := &proxy{inner: in}
 			seen := map[string]bool{}
+			failDelete := map[uint64]bool{}
 			var mu sync.Mutex
 			p.onResp = rewriteResults(func(st *sessState, r *spb.AFTResult) *spb.AFTResult {
 				op := st.ops[r.GetId()]
@@ -216,15 +217,18 @@ var faults = []fault{
 						seen[k] = true
 					}
 				case spb.AFTOperation_DELETE:
-					if !seen[k] {
-						if r.GetStatus() == spb.AFTResult_FIB_PROGRAMMED {
+					switch r.GetStatus() {
+					case spb.AFTResult_RIB_PROGRAMMED:
+						if !seen[k] {
+							failDelete[r.GetId()] = true
+							r.Status = spb.AFTResult_FAILED
+							return r
+						}
+						delete(seen, k)
+					case spb.AFTResult_FIB_PROGRAMMED:
+						if failDelete[r.GetId()] {
 							return nil
 						}
-						r.Status = spb.AFTResult_FAILED
-						return r
-					}
-					if r.GetStatus() == spb.AFTResult_RIB_PROGRAMMED && !st.fib() || r.GetStatus() == spb.AFTResult_FIB_PROGRAMMED {
-						delete(seen, k)
 					}
 				}
 				return r
@@ -495,7 +499,7 @@ var faults = []fault{
 		control:  ctlBasic,
 	},
 	{
-		name: "accepts-forward-references-when-disallowed", what: "holds forward references although it is configured to refuse them",
+		name: "accepts-forward-references-when-disallowed", what: "holds forward references although it is configured to refuse them", slow: true, // the test waits a minute for the answer that never comes
 		wrap:     func(in *server.Server) spb.GRIBIServer { return &proxy{inner: in} },
 		noFwdRef: true,
 		expect:   []string{"Add a forward reference to a server that disallows it"},
